@@ -59,8 +59,8 @@ func C02_Nested[T signal.SignalTypes]() {
 	base := allocAny[T](C, K, "base")
 	a, b := window("ab", K)
 	v1 := base.Slice(a, b)
-	cc := vf.Concretize(vf.IntRange("c", 0, K-a))
-	d := vf.Concretize(vf.IntRange("d", cc, K-a))
+	cc := vf.Pick("c", 0, K-a)
+	d := vf.Pick("d", cc, K-a)
 	n := v1.Slice(cc, d)
 	direct := base.Slice(a+cc, a+d)
 	vf.Assert("nested-len", n.Len() == direct.Len() && n.Length() == direct.Length())
